@@ -8,7 +8,7 @@ for line in out.splitlines():
         raw = open(p).read()
         # both sides appended functions after the same last function: git then keeps the
         # shared closing brace outside the conflict, so the first side may need its own
-        for sep in ("\n", "}\n\n"):
+        for sep in ("\n", "}\n\n", "\n"):  # last: fall back to the plain join
             s = re.sub(r"<<<<<<< [^\n]*\n", "", raw)
             s = re.sub(r"=======\n", sep, s)
             s = re.sub(r">>>>>>> [^\n]*\n", "", s)
